@@ -1,3 +1,4 @@
-// Kani contracts for /repo/src/compiler/expression/query.rs (child module via cfg(kani) hook).
+// src/compiler/expression/query.rs: verified by the Verus unit v_target_ops on the extracted bodies (Kani harnesses through
+// Context/Result types run into the drop-glue explosion, DESIGN 1.1 rule 1b).
 #![allow(warnings)]
 use super::*;
